@@ -181,6 +181,7 @@ def ascii_table(
     if limit > 0 and not top_and_tail:
         if is_lazy:
             t = DataFrame(rows=[row for row in islice(table._rows, limit)], schema=table.schema)
+            lazy_length = t.rowcount
         else:
             t = table.slice(length=limit)
     elif limit > 0 and top_and_tail:
